@@ -100,6 +100,39 @@ def stay_in_range(seed, steps=400):
     return None
 
 
+def updatesome_cases():
+    """Updatable.updatesome on a real biased connection: the named parameters are applied and (by default) cleared - a
+    second application changes nothing - and the unnamed ones keep their accumulated parts"""
+    fails, n = [], 0
+    for sel in (("weight",), ("bias",), ("weight", "bias"), ("bias", "weight")):
+        for clear in (True, False):
+            n += 1
+            torch.manual_seed(1)
+            c = LinearDense((3,), (2,), 1.0, synapse=DeltaCurrent.partialconstructor(1.0), bias=True)
+            c.updater = c.defaultupdater()
+            w0, b0 = c.weight.clone(), c.bias.clone()
+            dw, db = torch.full((2, 3), 0.25), torch.full((2,), 0.5)
+            c.updater.weight = (dw, None)
+            c.updater.bias = (db, None)
+            inp = dict(selected=list(sel), clear=clear)
+            c.updatesome(*sel, clear=clear)
+            exp_w = w0 + dw if "weight" in sel else w0
+            exp_b = b0 + db if "bias" in sel else b0
+            if not torch.allclose(c.weight, exp_w) or not torch.allclose(c.bias, exp_b):
+                fails.append({"what": "C10/updatesome/first_application", "input": inp, "expected": [exp_w.flatten().tolist(), exp_b.tolist()], "actual": [c.weight.flatten().tolist(), c.bias.tolist()]})
+                continue
+            c.update()  # applies whatever is still accumulated: selected ones only if they were NOT cleared
+            exp_w2 = exp_w + dw if ("weight" not in sel or not clear) else exp_w
+            exp_b2 = exp_b + db if ("bias" not in sel or not clear) else exp_b
+            if not torch.allclose(c.weight, exp_w2) or not torch.allclose(c.bias, exp_b2):
+                fails.append({"what": "C10/updatesome/second_application", "input": inp, "expected": [exp_w2.flatten().tolist(), exp_b2.tolist()], "actual": [c.weight.flatten().tolist(), c.bias.tolist()]})
+    uniq = []
+    for f in fails:
+        if not any(u["what"] == f["what"] for u in uniq):
+            uniq.append(f)
+    return uniq, n
+
+
 def sweep(tier="quick", seed=0, unsupported=()):
     failures, cases = [], 0
     n = 150 if tier == "quick" else 1500
@@ -114,6 +147,9 @@ def sweep(tier="quick", seed=0, unsupported=()):
         f = stay_in_range(seed + s)
         if f is not None and not any(x["what"] == f["what"] for x in failures):
             failures.append(f)
+    fu, nu = updatesome_cases()
+    failures.extend(fu)
+    cases += nu
     names = [n for n in dir(F) if n.startswith("bound_")]
     for nm in names:
         for pv in (-1.5, -1.0, -0.5, 0.0, 0.5, 1.0, 1.5):
@@ -202,6 +238,10 @@ def replay_bounding(name, model):
 
 
 def replay(contract, label, model, note=""):
+    if contract.startswith("Updatable."):
+        fu, nu = updatesome_cases()
+        if fu:
+            return {"reproduced": True, "failure": fu[0], "concrete": fu[0]["input"], "search": {"points_tried": nu}}
     if contract.startswith("bounding."):
         try:
             r = replay_bounding(contract.split(".", 1)[1], model or {})
@@ -232,6 +272,10 @@ def replay(contract, label, model, note=""):
 
 def replay_native(rp):
     i = rp["input"]
+    if str(rp.get("what", "")).startswith("C10/updatesome"):
+        fu, _ = updatesome_cases()
+        hit = [f for f in fu if f["what"] == rp.get("what")]
+        return {"reproduced": bool(hit), "failure": hit[0] if hit else None}
     if "function" in i:
         m = {"p": i["param"], "u": i.get("update"), "pos": i.get("pos"), "neg": i.get("neg"), "L": i.get("limit"), "max": i.get("max"), "min": i.get("min"), "rng": i.get("range"), "q": i.get("power"), "qu": i.get("upper_power"), "ql": i.get("lower_power")}
         r = replay_bounding(i["function"], {k: v for k, v in m.items() if v is not None})
